@@ -5,27 +5,6 @@ From Pi2 Require Import ML.Syntax ML.Subst Lib.Term Lib.TermFacts.
 Import ListNotations.
 Open Scope N_scope.
 
-(** no pending substitution, no constrained metavariable (ids unrestricted) *)
-Fixpoint plain (p : pat) : bool :=
-  match p with
-  | EVar _ | SVar _ | Sym _ => true
-  | Imp l r | App l r => plain l && plain r
-  | Ex _ q | Mu _ q => plain q
-  | MVar _ [] [] [] [] [] => true
-  | _ => false
-  end.
-
-(** textbook simultaneous instantiation *)
-Fixpoint pinst (d : list (N * pat)) (p : pat) : pat :=
-  match p with
-  | Imp l r => Imp (pinst d l) (pinst d r)
-  | App l r => App (pinst d l) (pinst d r)
-  | Ex x q => Ex x (pinst d q)
-  | Mu X q => Mu X (pinst d q)
-  | MVar i _ _ _ _ _ => match assoc i d with Some v => v | None => p end
-  | _ => p
-  end.
-
 (** every metavariable of [p] is bound by [d] *)
 Fixpoint bound (d : list (N * pat)) (p : pat) : bool :=
   match p with
@@ -36,42 +15,21 @@ Fixpoint bound (d : list (N * pat)) (p : pat) : bool :=
   | _ => true
   end.
 
+(** no pending substitution anywhere (constrained metavariables allowed) *)
+Fixpoint nosub (p : pat) : bool :=
+  match p with
+  | Imp l r | App l r => nosub l && nosub r
+  | Ex _ q | Mu _ q => nosub q
+  | ESub _ _ _ | SSub _ _ _ => false
+  | _ => true
+  end.
+
 Definition extends (d d' : list (N * pat)) : Prop := forall k v, assoc k d = Some v -> assoc k d' = Some v.
 
-Lemma lookup_assoc : forall d i,
-  lookup i (map fst d) (map snd d) = option_map Some (assoc i d).
+Lemma assoc_dlookup : forall d i, assoc i d = PM.dlookup i d.
 Proof.
   induction d as [|[k v] d IH]; intros i; cbn; [reflexivity|].
-  destruct (N.eqb k i); [reflexivity|]. apply IH.
-Qed.
-
-Lemma inst_plain : forall d p, plain p = true ->
-  inst guards_sound p (map fst d) (map snd d) = Some (pinst d p).
-Proof.
-  intros d.
-  induction p as [n|n|n|l IHl r IHr|l IHl r IHr|x p IH|x p IH|i a1 a2 a3 a4 a5|p IHp x q IHq|p IHp x q IHq];
-    intros H; cbn [plain] in H; try discriminate; cbn [inst pinst]; try reflexivity.
-  - apply andb_true_iff in H as [H1 H2]. now rewrite IHl, IHr.
-  - apply andb_true_iff in H as [H1 H2]. now rewrite IHl, IHr.
-  - now rewrite IH.
-  - now rewrite IH.
-  - destruct a1, a2, a3, a4, a5; try discriminate.
-    rewrite lookup_assoc. destruct (assoc i d); reflexivity.
-Qed.
-
-Lemma pinst_nil : forall p, pinst [] p = p.
-Proof.
-  induction p as [n|n|n|l IHl r IHr|l IHl r IHr|x p IH|x p IH|i a1 a2 a3 a4 a5|p IHp x q IHq|p IHp x q IHq];
-    cbn; rewrite ?IHl, ?IHr, ?IH; reflexivity.
-Qed.
-
-Lemma dynamic_inst_plain_spec : forall X d p,
-  conc X = Some p -> plain p = true -> conc (dynamic_inst X d) = Some (pinst d p).
-Proof.
-  intros [[t c]|] d p HX Hp; cbn in HX; try discriminate. injection HX as ->.
-  unfold dynamic_inst. destruct d as [|kv d].
-  - cbn. now rewrite pinst_nil.
-  - rewrite (inst_plain (kv :: d) p Hp). reflexivity.
+  rewrite (N.eqb_sym k i). destruct (N.eqb i k); auto.
 Qed.
 
 Lemma assoc_app_l : forall d e k v, assoc k d = Some v -> assoc k (d ++ e) = Some v.
@@ -84,16 +42,18 @@ Lemma extends_refl : forall d, extends d d. Proof. intros d k v H; exact H. Qed.
 Lemma extends_trans : forall a b c, extends a b -> extends b c -> extends a c.
 Proof. intros a b c H1 H2 k v H. auto. Qed.
 
-Lemma pinst_extends : forall d d' p, extends d d' -> bound d p = true -> pinst d' p = pinst d p.
+(** on substitution-free patterns whose metavariables are all bound, a larger map instantiates alike *)
+Lemma py_inst'_extends : forall d d' p, extends d d' -> nosub p = true -> bound d p = true ->
+  PM.py_inst' d' p = PM.py_inst' d p.
 Proof.
   intros d d' p He.
   induction p as [n|n|n|l IHl r IHr|l IHl r IHr|x p IH|x p IH|i a1 a2 a3 a4 a5|p IHp x q IHq|p IHp x q IHq];
-    intros Hb; cbn in *; try reflexivity.
-  - apply andb_true_iff in Hb as [H1 H2]. now rewrite IHl, IHr.
-  - apply andb_true_iff in Hb as [H1 H2]. now rewrite IHl, IHr.
+    intros Hn Hb; cbn in *; try reflexivity; try discriminate.
+  - apply andb_true_iff in Hb as [H1 H2]. apply andb_true_iff in Hn as [N1 N2]. now rewrite IHl, IHr.
+  - apply andb_true_iff in Hb as [H1 H2]. apply andb_true_iff in Hn as [N1 N2]. now rewrite IHl, IHr.
   - now rewrite IH.
   - now rewrite IH.
-  - destruct (assoc i d) as [v|] eqn:E; [|discriminate]. now rewrite (He _ _ E).
+  - rewrite <- !assoc_dlookup. destruct (assoc i d) as [v|] eqn:E; [|discriminate]. now rewrite (He _ _ E).
 Qed.
 
 Lemma bound_extends : forall d d' p, extends d d' -> bound d p = true -> bound d' p = true.
@@ -108,37 +68,73 @@ Proof.
   - apply andb_true_iff in Hb as [H1 H2]. now rewrite IHp, IHq.
 Qed.
 
-(** soundness: the returned map extends the seed, binds every metavariable of the pattern, and
-    instantiating the pattern with it gives the instance *)
+(** soundness, for ANY pattern (a successful match never walks through a pending substitution, and
+    the generator's instantiate ignores metavariable constraints): the returned map extends the
+    seed, binds every metavariable of the pattern, and instantiating the pattern with it gives the
+    instance *)
 Lemma match_single_sound : forall p i ret ret',
-  plain p = true -> match_single p i ret = Some ret' ->
-  extends ret ret' /\ bound ret' p = true /\ pinst ret' p = i.
+  match_single p i ret = Some ret' ->
+  extends ret ret' /\ nosub p = true /\ bound ret' p = true /\ PM.py_inst' ret' p = i.
 Proof.
   induction p as [n|n|n|l IHl r IHr|l IHl r IHr|x p IH|x p IH|id a1 a2 a3 a4 a5|p IHp x q IHq|p IHp x q IHq];
-    intros i ret ret' Hp H; cbn [plain] in Hp; cbn [match_single] in H; try discriminate.
+    intros i ret ret' H; cbn [match_single] in H; try discriminate.
   - destruct i; try discriminate. destruct (N.eqb_spec n n0); [|discriminate]. injection H as <-. subst.
     repeat split; auto using extends_refl.
   - destruct i; try discriminate. destruct (N.eqb_spec n n0); [|discriminate]. injection H as <-. subst.
     repeat split; auto using extends_refl.
   - destruct i; try discriminate. destruct (N.eqb_spec n n0); [|discriminate]. injection H as <-. subst.
     repeat split; auto using extends_refl.
-  - apply andb_true_iff in Hp as [Hl Hr]. destruct i as [| | |l' r'| | | | | |]; try discriminate.
+  - destruct i as [| | |l' r'| | | | | |]; try discriminate.
     destruct (match_single l l' ret) as [r1|] eqn:E1; [|discriminate].
-    destruct (IHl _ _ _ Hl E1) as (X1 & B1 & P1). destruct (IHr _ _ _ Hr H) as (X2 & B2 & P2).
-    split; [eauto using extends_trans|]. cbn. rewrite B2, (bound_extends _ _ _ X2 B1).
-    split; [reflexivity|]. now rewrite P2, (pinst_extends _ _ _ X2 B1), P1.
-  - apply andb_true_iff in Hp as [Hl Hr]. destruct i as [| | | |l' r'| | | | |]; try discriminate.
+    destruct (IHl _ _ _ E1) as (X1 & N1 & B1 & P1). destruct (IHr _ _ _ H) as (X2 & N2 & B2 & P2).
+    split; [eauto using extends_trans|]. cbn. rewrite N1, N2, B2, (bound_extends _ _ _ X2 B1).
+    repeat split. now rewrite P2, (py_inst'_extends _ _ _ X2 N1 B1), P1.
+  - destruct i as [| | | |l' r'| | | | |]; try discriminate.
     destruct (match_single l l' ret) as [r1|] eqn:E1; [|discriminate].
-    destruct (IHl _ _ _ Hl E1) as (X1 & B1 & P1). destruct (IHr _ _ _ Hr H) as (X2 & B2 & P2).
-    split; [eauto using extends_trans|]. cbn. rewrite B2, (bound_extends _ _ _ X2 B1).
-    split; [reflexivity|]. now rewrite P2, (pinst_extends _ _ _ X2 B1), P1.
+    destruct (IHl _ _ _ E1) as (X1 & N1 & B1 & P1). destruct (IHr _ _ _ H) as (X2 & N2 & B2 & P2).
+    split; [eauto using extends_trans|]. cbn. rewrite N1, N2, B2, (bound_extends _ _ _ X2 B1).
+    repeat split. now rewrite P2, (py_inst'_extends _ _ _ X2 N1 B1), P1.
   - destruct i as [| | | | |y q'| | | |]; try discriminate. destruct (N.eqb_spec x y); [|discriminate]. subst.
-    destruct (IH _ _ _ Hp H) as (X & B & P). cbn. now rewrite P.
+    destruct (IH _ _ _ H) as (X & Nn & B & P). cbn. now rewrite P.
   - destruct i as [| | | | | |y q'| | |]; try discriminate. destruct (N.eqb_spec x y); [|discriminate]. subst.
-    destruct (IH _ _ _ Hp H) as (X & B & P). cbn. now rewrite P.
+    destruct (IH _ _ _ H) as (X & Nn & B & P). cbn. now rewrite P.
   - destruct (assoc id ret) as [v|] eqn:E.
     + destruct (pat_eqb v i) eqn:Ev; [|discriminate]. injection H as <-. apply pat_eqb_eq in Ev. subst.
-      cbn. rewrite E. auto using extends_refl.
-    + injection H as <-. cbn. rewrite (assoc_app_new _ _ i E).
+      cbn. rewrite <- assoc_dlookup, E. auto using extends_refl.
+    + injection H as <-. cbn. rewrite <- assoc_dlookup, (assoc_app_new _ _ i E).
       split; [|auto]. intros k w Hk. now apply assoc_app_l.
 Qed.
+
+Lemma dynamic_inst_py_spec : forall X d p S,
+  conc X = Some p -> PM.py_inst d p = S -> conc (dynamic_inst X d) = Some S.
+Proof.
+  intros [[t c]|] d p S HX HS; cbn in HX; try discriminate. injection HX as ->.
+  unfold dynamic_inst. destruct d; cbn in *; congruence.
+Qed.
+
+Lemma py_inst'_nil_closed : forall p, nosub p = true -> bound [] p = true -> PM.py_inst' [] p = p.
+Proof.
+  induction p as [n|n|n|l IHl r IHr|l IHl r IHr|x p IH|x p IH|i a1 a2 a3 a4 a5|p IHp x q IHq|p IHp x q IHq];
+    intros Hn Hb; cbn in *; try reflexivity; try discriminate.
+  - apply andb_true_iff in Hb as [H1 H2]. apply andb_true_iff in Hn as [N1 N2]. now rewrite IHl, IHr.
+  - apply andb_true_iff in Hb as [H1 H2]. apply andb_true_iff in Hn as [N1 N2]. now rewrite IHl, IHr.
+  - now rewrite IH.
+  - now rewrite IH.
+Qed.
+
+(** what the *_match* rules rely on: instantiating the pattern side with the returned map gives the
+    instance side *)
+Lemma match_single_py_inst : forall b c th, match_single b c [] = Some th -> PM.py_inst th b = c.
+Proof.
+  intros b c th M. destruct (match_single_sound _ _ _ _ M) as (_ & Nn & B & P).
+  destruct th; [|exact P]. cbn. rewrite <- P. symmetry. now apply py_inst'_nil_closed.
+Qed.
+
+Lemma dynamic_inst_imp_spec : forall X d a b,
+  conc X = Some (Imp a b) -> conc (dynamic_inst X d) = Some (Imp (PM.py_inst d a) (PM.py_inst d b)).
+Proof. intros X d a b H. eapply dynamic_inst_py_spec; [exact H|]. destruct d; reflexivity. Qed.
+
+Lemma dynamic_inst_equiv_spec : forall X d a b,
+  conc X = Some (p_equiv a b) ->
+  conc (dynamic_inst X d) = Some (p_equiv (PM.py_inst d a) (PM.py_inst d b)).
+Proof. intros X d a b H. eapply dynamic_inst_py_spec; [exact H|]. destruct d; reflexivity. Qed.
